@@ -103,6 +103,15 @@ class ListStreams(HTMLHandlerBase):
         return flask.render_template('media/index.html', **context)
 
 
+def periods_using_stream(stream: models.Stream) -> list[str]:
+    """
+    Names of the multi-period stream periods that play media from this stream
+    """
+    return [
+        f'{prd.parent.name}/{prd.pid}'
+        for prd in models.Period.search(stream_pk=stream.pk)]
+
+
 class AddStreamTemplateContext(TemplateContext):
     csrf_token: str
     model: models.Stream
@@ -159,6 +168,12 @@ class AddStream(HTMLHandlerBase):
             data['directory'] = params['prefix']
         result = {}
         st = models.Stream.get(directory=data['directory'])
+        if st and periods_using_stream(st):
+            msg = f'Stream {st.directory} already exists and is used by {", ".join(periods_using_stream(st))}'
+            if is_ajax():
+                return jsonify({'error': msg}, 409)
+            flask.flash(msg, 'error')
+            return self.get(error=msg)
         if st:
             models.db.session.delete(st)
             # the old row has to be gone before a row with the same directory is added
@@ -361,6 +376,13 @@ class EditStream(HTMLHandlerBase):
         """
         Delete a stream
         """
+        in_use = periods_using_stream(current_stream)
+        if in_use:
+            msg = f'Stream {current_stream.directory} is used by {", ".join(in_use)}'
+            if is_ajax():
+                return jsonify({'success': False, 'error': msg}, 409)
+            flask.flash(msg, 'error')
+            return flask.redirect(flask.url_for('list-streams'))
         models.db.session.delete(current_stream)
         models.db.session.commit()
         flask.flash(f'Deleted stream "{current_stream.title}"', 'success')
@@ -458,6 +480,11 @@ class DeleteStream(DeleteModelBase):
             'view-stream', spk=current_stream.pk)
 
     def delete_model(self) -> JsonObject:
+        in_use = periods_using_stream(current_stream)
+        if in_use:
+            msg = f'Stream {current_stream.directory} is used by {", ".join(in_use)}'
+            flask.flash(msg, 'error')
+            return {"error": msg, "title": current_stream.title}
         result = {
             "deleted": current_stream.pk,
             "title": current_stream.title,
